@@ -411,21 +411,56 @@ def run_erange(prog, ctx=None):
                 for n in walk(b.term["cond"]):
                     if n.get("k") == "call" and callee_name(n) == "__errno_location":
                         tests.add(bid)
-        an = Analysis(prog, f).run()
+        # typestate with trace partitioning: "0" no conversion yet, "C" converted and errno not looked at, "T" errno was looked at
+        # and did not say ERANGE (or was tested in another way), "R" the edge on which errno == ERANGE holds
+        from .ival import Summaries
+        PK = Analysis.PK
+        call_sids = {e.get("sid") for b, i, e in calls}
+
+        def hook(an, blk, idx, el, st, call_sids=call_sids):
+            if el.get("k") == "call" and el.get("sid") in call_sids:
+                st[PK] = "C"
+
+        def edge_hook(an, blk, cond, truth, st):
+            if not any(n.get("k") == "call" and callee_name(n) == "__errno_location" for n in walk(cond)):
+                return
+            c = strip(cond, all_casts=True)
+            neg = False
+            while c.get("k") == "un" and c.get("op") == "!":
+                neg = not neg
+                c = strip(c["e"], all_casts=True)
+            if c.get("k") == "bin" and c.get("op") in ("==", "!=") and (cval(c["a"]) == 34 or cval(c["b"]) == 34):
+                is_range = truth != neg if c["op"] == "==" else truth == neg
+                st[PK] = "R" if is_range else "T"
+            else:
+                st[PK] = "T"
+
+        try:
+            sm = Summaries(prog)
+        except Exception:
+            sm = None
+        an = Analysis(prog, f, hook=hook, edge_hook=edge_hook, summaries=sm)
+        st0 = an.entry_state()
+        st0[PK] = "0"
+        an.run(state=st0)
+        bad_c = bad_r = None
+        for (bid, idx), parts in an.pre_parts.items():
+            el = f.blocks[bid].el[idx]
+            if el.get("k") != "ret" or el.get("e") is None:
+                continue
+            for pk, stp in parts.items():
+                if pk not in ("C", "R"):
+                    continue
+                rv = an.ev(el["e"], dict(stp), True, el)
+                if rv is not None and rv.hi > 0:
+                    if pk == "C":
+                        bad_c = el
+                    else:
+                        bad_r = el
         for b, i, e in calls:
-            reach = f.reachable_from(b.id, avoid=tests)
-            bad = None
-            for bid in reach:
-                for idx, el in enumerate(f.blocks[bid].el):
-                    if el.get("k") == "ret" and el.get("e") is not None:
-                        if bid == b.id and idx < i:
-                            continue
-                        rv = an.value_at(bid, idx, el["e"])
-                        if rv is not None and rv.hi > 0:
-                            bad = el
-            ok = bad is None
+            ok = bad_c is None
             res.ob("%s:%s" % (f.qn, callee_name(e)), ok, f, e.get("l", 0),
-                   "" if ok else "result of %s() reaches a success return (line %s) without any test of errno: out-of-range numerals saturate silently" % (callee_name(e), bad.get("l")),
+                   "" if ok else "result of %s() reaches a success return (line %s) without any test of errno: out-of-range numerals saturate silently" % (callee_name(e), bad_c.get("l")),
                    {"call": norm(show(e, f))})
             res.count("strto_calls")
         # the test reads what the conversion left in errno: errno is set to zero before the call (the C library only ever
@@ -455,28 +490,18 @@ def run_erange(prog, ctx=None):
             ok = bad is None
             res.ob("%s:%s:errno kept until tested" % (f.qn, callee_name(e)), ok, f, (bad.get("l") if bad else e.get("l", 0)) or f.line,
                    "" if ok else "`%s` overwrites errno between %s() and the test that reads it: the test no longer sees the range error of the conversion" % (norm(show(bad, f)), callee_name(e)))
-        # the range error alone decides: from the edge on which errno equals ERANGE no success return is reachable (a second
-        # condition joined to the test - only overflow, only some values - lets part of the unrepresentable numerals through)
-        for bid in sorted(tests):
-            blk = f.blocks[bid]
-            t = blk.term
-            c = strip(t["cond"], all_casts=True)
-            if not (c.get("k") == "bin" and c.get("op") == "==" and len(blk.succ) == 2 and blk.succ[0] is not None):
-                continue
-            if not any(n.get("k") == "call" and callee_name(n) == "__errno_location" for n in walk(c)):
-                continue
-            T = blk.succ[0]
-            bad = None
-            for x in sorted({T} | set(f.reachable_from(T))):
-                for idx, el in enumerate(f.blocks[x].el):
-                    if el.get("k") == "ret" and el.get("e") is not None:
-                        rv = an.value_at(x, idx, el["e"])
-                        if rv is not None and rv.hi > 0:
-                            bad = el
-            ok = bad is None
-            res.ob("%s:errno-test-decides" % f.qn, ok, f, t.get("l", f.line),
-                   "" if ok else "after `%s` held, a success return (line %s) is still reachable: the range error of the C library is not refused on its own" % (
-                       norm(show(c, f))[:40], bad.get("l")))
+        # the range error alone decides: on the edge on which errno equals ERANGE no return answers success (a second condition
+        # joined to the test - only overflow, only some values - lets part of the unrepresentable numerals through)
+        if any(True for bid in tests):
+            for bid in sorted(tests):
+                blk = f.blocks[bid]
+                c = strip(blk.term["cond"], all_casts=True)
+                if not (c.get("k") == "bin" and c.get("op") in ("==", "!=") and (cval(c["a"]) == 34 or cval(c["b"]) == 34)):
+                    continue
+                ok = bad_r is None
+                res.ob("%s:errno-test-decides" % f.qn, ok, f, blk.term.get("l", f.line),
+                       "" if ok else "after `%s` held, a success return (line %s) is still reached: the range error of the C library is not refused on its own" % (
+                           norm(show(c, f))[:40], bad_r.get("l")))
     return res
 
 
